@@ -20,6 +20,7 @@ import Mashu.Lossless
 import Mashu.Props.C01
 import Mashu.Props.C02
 import Mashu.Generated
+import Mashu.Props.C04_PackF
 import Mashu.Lemmas.Inv
 namespace Mashu
 
